@@ -157,6 +157,8 @@ def run_case(case, part):
 
     if case.get("kind") == "guess":
         return check_guess(case, part)
+    if case.get("kind") == "ts_plain":
+        return check_ts_plain(case, part)
     kw, t, v, e, fin, unit = _mk(case)
     cov = bool(case.get("cov"))
     if not case["clean"] and not all(fin):
@@ -245,6 +247,58 @@ def run_case(case, part):
     if depth > 0:
         st, sv, se = _state(d)
         walk(d, st.tolist(), sv.tolist(), (se if cov else se.tolist()), 0, [], True)
+
+
+def check_ts_plain(case, part):
+    """a plain astropy TimeSeries (not produced by to_timeseries: no / empty / explicit reference epoch in its meta) written to a
+    file and read with RVData.from_timeseries: the object holds the table's observations and the reference epoch defaults to
+    the earliest time"""
+    import os
+
+    import astropy.units as u
+    from astropy.time import Time
+    from astropy.timeseries import TimeSeries
+    from thejoker import RVData
+
+    from .. import seams
+
+    mjd = np.array(case["t"], dtype=float) + T0
+    v = 11.0 + 3.0 * np.arange(len(mjd))
+    e = 0.5 + 0.25 * np.arange(len(mjd))
+    ts = TimeSeries(time=Time(mjd, format="mjd", scale=case["scale"]), data={"rv": v * u.km / u.s, "rv_err": e * u.km / u.s})
+    want_tref = None
+    if case["meta"] == "none_value":
+        ts.meta["t_ref"] = None
+    elif case["meta"] == "time":
+        ts.meta["t_ref"] = Time(T0 - 7.0, format="mjd", scale="tcb")
+        want_tref = T0 - 7.0
+    elif case["meta"] == "other_keys":
+        ts.meta["observer"] = "someone"
+    fn = os.path.join(seams.fresh_dir("c15"), "plain-%d.hdf5" % os.getpid())
+    if os.path.exists(fn):
+        os.unlink(fn)
+    try:
+        ts.write(fn, path="rvdata", serialize_meta=True)
+        d = RVData.from_timeseries(fn, path="rvdata")
+    except Exception as ex:
+        part.violation(case, f"from_timeseries raised {type(ex).__name__}: {str(ex)[:200]}")
+        return
+    finally:
+        if os.path.exists(fn):
+            os.unlink(fn)
+    want_t = Time(mjd, format="mjd", scale=case["scale"]).tcb.mjd
+    t, vv, ee = _state(d)
+    got = sorted(zip(np.round(t, 8).tolist(), vv.tolist(), ee.tolist()))
+    want = sorted(zip(np.round(want_t, 8).tolist(), v.tolist(), e.tolist()))
+    part.record(case, outcome=(case["meta"], case["scale"]), nontrivial=True)
+    if got != want:
+        part.violation(case, "from_timeseries does not hold the observations of the TimeSeries", expected=want, observed=got)
+        return
+    if want_tref is None:
+        want_tref = float(np.min(want_t))
+    if d.t_ref is None or abs(float(d.t_ref.tcb.mjd) - want_tref) > 1e-8 or abs(float(d._t_ref_bmjd) - want_tref) > 1e-8:
+        part.violation(case, "from_timeseries: reference epoch is not the one stored with the table / does not default to the earliest time",
+                       expected=want_tref, observed=None if d.t_ref is None else float(d.t_ref.tcb.mjd))
 
 
 def check_guess(case, part):
@@ -336,6 +390,11 @@ def build_cases(quick):
             for ename in ("{rv}_err", "e_{rv}", "{rv}err"):
                 for tk in ({}, {"scale": "tdb"}, {"scale": "utc"}, {"scale": "tcb"}, {"format": "jd" if tkind in ("jd", "bjd") else "mjd", "scale": "tt"}):
                     cases.append(dict(kind="guess", tname=tname, tkind=tkind, vname=vname, ename=ename, time_kwargs=tk))
+    # plain TimeSeries files (not written by to_timeseries)
+    for tt in ([3.5, 1.25, 40.0], [0.0], [5.0, 5.0, 2.0, 9.5]):
+        for scale in ("tcb", "utc"):
+            for meta in ("absent", "none_value", "time", "other_keys"):
+                cases.append(dict(kind="ts_plain", t=tt, scale=scale, meta=meta))
     return cases
 
 
